@@ -62,3 +62,9 @@ Theorem C17_route_facts :
   handle_exception_shuts_down = true.
 Proof. exact (conj protected_spec (conj touched_spec handle_exception_spec)). Qed.
 Print Assumptions C17_route_facts.
+
+(* helper processes of the pool (tqdm manager, insights manager) are started with SIGINT masked, like the workers *)
+Theorem C17_helper_processes_started_under_mask :
+  progress_bar_thread_started_under_mask = true /\ insights_manager_started_under_mask = true.
+Proof. exact (conj pb_mask_spec insights_mask_spec). Qed.
+Print Assumptions C17_helper_processes_started_under_mask.
